@@ -801,6 +801,10 @@ struct Explorer {
                    " instead of '" + s.rspfile_content + "'";
         x.facts.set("stmt", s.id);
         out->push_back(x);
+        // "written with exactly the evaluated rspfile_content before the command starts" is C16's clause as well
+        Violation y = x;
+        y.prop = "C16";
+        out->push_back(y);
       }
     }
   }
@@ -3210,7 +3214,7 @@ struct Explorer {
           content_bad = vs.size() > n0;
           if (!content_bad && Want("C02")) CheckConverge(op, r, d, &vs, &w.disk);
         }
-        if (Want("C04") || Want("C05")) CheckOrder(r, &vs);
+        if (Want("C04") || Want("C05") || Want("C16")) CheckOrder(r, &vs);
         if (Want("C16")) CheckRspLifecycle(r, d, &vs);
         if (Want("C05")) CheckFailures(op, r, w.disk, d, baseline.get(), &vs);
         if (Want("C05") && !op.tool && !op.dry_run) CheckMissingSource(op, r, w.disk, &vs);
